@@ -52,7 +52,12 @@ def build():
         emit(I, "cond", obj=env["self"], result=r)
         return r
     C.ext("Cond.evaluate", model=cond_eval, trusted_reason="condition template (C16): reads the CURRENT variable values")
-    RH = TupleS(Fn, Int, Init(lambda I, name: I.new_dict(())), Opaque("UUID"), Opt(ObjS("Cond")), NoneT,
+    def handler_kwargs(I, name):
+        """kwargs a handler was registered with: none, or one whose name collides with a posted kwarg"""
+        if I.ctx.fork(2) == 0:
+            return I.new_dict(())
+        return I.new_dict((("a", VInt(z3.Int(name + "[a]"))),))
+    RH = TupleS(Fn, Int, Init(handler_kwargs), Opaque("UUID"), Opt(ObjS("Cond")), NoneT,
                 ntname="RegisteredHandler",
                 fields=("callback", "priority", "kwargs", "key", "condition", "blocking_facility"))
 
@@ -156,6 +161,15 @@ def build():
                 return VBool(False)
             cs.append(cond_true)
             cs.append(z3.Not(E[p].args.get("earlier_waits", z3.BoolVal(False))))
+            # the handler gets the posted kwargs merged with the kwargs it was registered with - its own win
+            hk = I.old_heap.data[(I.force(h.items[2]).ref, "$")].get("a")
+            posted = I.container(I.force(env["kwargs"]).ref).get("a")
+            got = E[p].args["kwargs"].get("a")
+            want = hk if hk is not None else posted
+            if want is not None:
+                if got is None:
+                    return VBool(False)
+                cs.append(I.eq(got, want))
             p += 1
             if p < len(E) and E[p].name == "await":
                 p += 1
@@ -183,8 +197,9 @@ def build():
          requires=[("the posted kwargs carry no HELD wait queue (protocol obligation on post_queue callers); a free "
                     "one may be forwarded and is then shared by all handlers",
                     "'queue' not in kwargs or not kwargs['queue'].waiter")],
-         ensures=[("every registered handler runs, in order, never while an earlier wait is outstanding, and the "
-                   "completion callback fires exactly once, last", "seq_ok()")],
+         ensures=[("every registered handler runs, in order, with the posted kwargs overridden by its own registered "
+                   "kwargs, never while an earlier wait is outstanding, and the completion callback fires exactly once, "
+                   "last", "seq_ok()")],
          modifies=[], raises={},
          bounded="%d registered handlers; each may or may not register a wait on its queue" % N)
 
